@@ -121,7 +121,8 @@ pub fn expand_flow(
 
             FLOWS.remove(deps.storage, (flow.start_epoch, flow.flow_id));
 
-            let flow_amount_default_value = (flow_asset.amount, 0u64);
+            // without any expansion so far, the funded amount is the original flow asset amount
+            let flow_amount_default_value = (flow.flow_asset.amount, 0u64);
 
             let (_, (flow_amount, _)) = flow
                 .asset_history
